@@ -235,6 +235,9 @@ func propC13(c *Ctx, r *Report) {
 	c.runWalkAll(r, "handlewalk", "passes", inPkgs("ir", "dxil/internal/passes"), reachFilter(reach), true, true, nil)
 	c.runRebuild(r, "rebuild.complete", "passes.rebuilds", inPkgs("ir", "dxil/internal/passes", "msl/internal/codegen"), nil)
 	r.Clauses = append(r.Clauses, "per-arm state (E16): inside a loop over the arms of a branching statement a pass never assigns a loop-invariant map itself to its map-typed state field (only a copy, nil, make or a literal), so arms do not share one map")
+	r.Clauses = append(r.Clauses, "moved locals are re-initialised (E76): a pass that appends the local variables of one function to another builds, in a loop over the source function's locals, a store of each local's initial value for the place where the body is put")
+	c.runInlineLocalReinit(r, "inline.localreinit", inPkgs("ir", "dxil"))
+	r.floor("inline.localreinit", 1)
 	r.Clauses = append(r.Clauses, shallowWalkerClause)
 	c.runShallowWalker(r, "walker.shallow", inPkgs("ir", "dxil"), shallowWalkerExceptions)
 	r.floor("walker.shallow", 10)
